@@ -58,6 +58,20 @@ PARAMS = {
                               {"diffusivity": 0.03, "drag": -0.05}),
     "NavierStokesVelocity": (3, lambda ex, p, dt: ex.stepper.NavierStokesVelocity(3, 3.0, 5, dt, diffusivity=p["diffusivity"], order=ORDER[0]),
                              {"diffusivity": 0.03}),
+    # coefficient lists in which terms are SWITCHED OFF by an exact zero (the usual way to write them): the derivative
+    # with respect to a coefficient whose value is exactly 0.0 is as well defined as anywhere else
+    "GeneralLinearStepper": (2, lambda ex, p, dt: ex.stepper.generic.GeneralLinearStepper(
+        2, 3.0, 6, dt, linear_coefficients=(p["a0"], p["a1"], p["a2"], p["a3"])), {"a0": 0.0, "a1": -0.4, "a2": 0.02, "a3": 0.0}),
+    "NormalizedLinearStepper": (1, lambda ex, p, dt: ex.stepper.generic.NormalizedLinearStepper(
+        1, 12, normalized_linear_coefficients=(p["a0"] * dt, p["a1"] * dt, p["a2"] * dt, p["a3"] * dt)), {"a0": 0.0, "a1": -0.5, "a2": 0.0, "a3": 0.01}),
+    "DifficultyLinearStepper": (1, lambda ex, p, dt: ex.stepper.generic.DifficultyLinearStepper(
+        1, 12, linear_difficulties=(p["g0"] * dt, p["g1"] * dt, p["g2"] * dt)), {"g0": 0.0, "g1": 0.0, "g2": 3.0}),
+    "GeneralNonlinearStepper@0": (1, lambda ex, p, dt: ex.stepper.generic.GeneralNonlinearStepper(
+        1, 3.0, 12, dt, linear_coefficients=(p["a0"], 0.0, p["a2"]), nonlinear_coefficients=(p["b0"], -0.7, p["b2"]), order=ORDER[0]),
+        {"a0": 0.0, "a2": 0.05, "b0": 0.0, "b2": 0.0}),
+    "GeneralConvectionStepper@0": (1, lambda ex, p, dt: ex.stepper.generic.GeneralConvectionStepper(
+        1, 3.0, 12, dt, linear_coefficients=(p["a0"], p["a1"], 0.03), convection_scale=p["b"], order=ORDER[0]),
+        {"a0": 0.0, "a1": 0.0, "b": 0.0}),
 }
 CHANNELS = {"Wave": 2, "GrayScott": 2, "NavierStokesVelocity": 3}
 
@@ -184,7 +198,8 @@ def oracle(ctx, deep):
                               "probe": "guarded", "args": {"name": name, "D": D, "N": N, "order": order, "seed": ctx.seed + idx}, "observed": r})
     names = list(PARAMS.keys())
     if not deep:
-        names = [n for i, n in enumerate(names) if (i + ctx.seed) % 2 == 0] + ["Wave", "NavierStokesVorticity"]
+        names = [n for i, n in enumerate(names) if (i + ctx.seed) % 2 == 0] + ["Wave", "NavierStokesVorticity", "GeneralLinearStepper",
+                                                                                 "NormalizedLinearStepper", "GeneralNonlinearStepper@0"]
         for nm, od in (("Burgers", 1), ("KuramotoSivashinsky", 1), ("KortewegDeVries", 4)):   # fixed: every order family appears
             r = probe_param_derivatives(nm, ctx.seed, od)
             ctx.count(("oracle_derivatives", nm, od))
